@@ -56,11 +56,17 @@ class C06(Prop):
             meta = dict(k=fam, late=late, same_aad=(paad == aad), detached=detached)
             if fam in ('CoseSign1Builder', 'CoseSignBuilder', 'CoseMacBuilder', 'CoseMac0Builder') and not detached:
                 if r.random() < 0.9 or fam.startswith('CoseMac'): pre.append('(payload b%s)' % pl.hex())
+            mixed = detached and r.random() < 0.2
+            if mixed:
+                # an embedded payload — the empty one too — and a detached creating helper do not go together: refused (panic); if a
+                # message comes out all the same, the embedded verifier must see what the signer saw (informed round 12: `Some([])` let through)
+                pre.append('(payload b%s)' % r.choice(['', '', pl.hex(), '00']))
             r.shuffle(pre)
             tr = r.random() < 0.4
             if fam == 'CoseSign1Builder':
                 cr = ('(%screate_detached_signature b%s b%s %s)' % ('try_' if tr else '', pl.hex(), aad.hex(), signer())) if detached else ('(%screate_signature b%s %s)' % ('try_' if tr else '', aad.hex(), signer()))
                 chk = ('(check verifyd b%s b%s %s)' % ((pl if r.random() < 0.8 else pl + b'x').hex(), paad.hex(), ver())) if detached else '(check verify b%s %s)' % (paad.hex(), ver())
+                if mixed: chk = '(check verify b%s %s)' % (paad.hex(), ver()); meta['mixed'] = True
             elif fam == 'CoseSignBuilder':
                 ns = r.choice([1, 2, 3]); crs = []
                 for i in range(ns):
@@ -68,6 +74,7 @@ class C06(Prop):
                     crs.append(('(%sadd_detached_signature %s b%s b%s %s)' % ('try_' if tr else 'add_'[:0], sg, pl.hex(), aad.hex(), signer())) if detached else ('(%sadd_created_signature %s b%s %s)' % ('try_' if tr else '', sg, aad.hex(), signer())))
                 cr = ' '.join(crs); meta['nsig'] = ns; idx = r.randrange(ns); meta['idx'] = idx
                 chk = ('(check verifyd %d b%s b%s %s)' % (idx, pl.hex(), paad.hex(), ver())) if detached else '(check verify %d b%s %s)' % (idx, paad.hex(), ver())
+                if mixed: chk = '(check verify %d b%s %s)' % (idx, paad.hex(), ver()); meta['mixed'] = True
             elif fam in ('CoseMacBuilder', 'CoseMac0Builder'):
                 cr = '(%screate_tag b%s %s)' % ('try_' if tr else '', aad.hex(), signer()); chk = '(check verify b%s %s)' % (paad.hex(), ver())
             elif fam in ('CoseEncryptBuilder', 'CoseEncrypt0Builder'):
@@ -103,6 +110,8 @@ class C06(Prop):
         same_ctx = True
         if m['k'] == 'CoseRecipientBuilder': same_ctx = (chk[2] == m.get('ctx'))
         same_pl = True
+        if m.get('mixed'):
+            return 'a detached creating helper ran beside an embedded payload, and the embedded verifier then saw other bytes than the signer' if created_arg != seen else None
         if m.get('detached'):
             # detached payload given to check vs to create
             # (parsed, not a regular expression: a signer's headers may themselves contain `) b.. ` sequences)
@@ -326,7 +335,8 @@ class C08(Prop):
         # (informed round 8: the trimmed form of a text label recorded as seen)
         Tx = lambda b: ('text', b); I_ = lambda x: ('int', x)
         near = [(Tx(b' a'), Tx(b'a')), (Tx(b'a '), Tx(b'a')), (Tx(b'kid\n'), Tx(b'kid')), (Tx('\u00a0x'.encode()), Tx(b'x')), (Tx(b'A'), Tx(b'a')), (Tx(b'01'), Tx(b'1')), (Tx(b'100'), I_(100)), (Tx(b'-1'), I_(-1)),
-                (Tx('\u00e9'.encode()), Tx('e\u0301'.encode())), (Tx(b''), Tx(b' ')), (I_(100), I_(-101)), (Tx(b'ab'), Tx(b'ab\x00'))]
+                (Tx('\u00e9'.encode()), Tx('e\u0301'.encode())), (Tx(b''), Tx(b' ')), (I_(100), I_(-101)), (Tx(b'ab'), Tx(b'ab\x00')),
+                (Tx(b'\x00' * 7 + b'\x09'), I_(9)), (Tx(b'abcdefgh'), I_(0x6162636465666768)), (Tx(b'\x09'), I_(9)), (Tx(b'9'), I_(57)), (Tx(b'\xff' * 0 + b'd'), I_(100))]
         for a, b in near:
             for x, y in ((a, b), (b, a)):
                 for extra in ([], [(I_(200), I_(0))]):
@@ -673,6 +683,11 @@ class C12(Prop):
                 c2 = cl[:cl.rindex('(rest')] + '(rest %s N %s)' % (nm, ' '.join([r.choice([nm, 'A9']), 'i1'])) + ')'
                 ops.append(mk(r.choice(['enc ClaimsSet %s', 'tov ClaimsSet %s']) % c2, k='encdup:cwt', encdup=True))
         return ops
+    def judge(self, o, impl, model):
+        # "rejects, with the duplicate-key error": where the proved model reports the repeat, so must the implementation
+        if o['meta'].get('dup') and model == 'err Dup' and impl is not None and impl.startswith('err') and impl != 'err Dup':
+            return ('fail', 'a repeated label was refused with %s, not with the duplicate-key error' % impl)
+        return super().judge(o, impl, model)
     def impl_pred(self, o, impl):
         if o['meta'].get('dup') and impl.startswith('ok'): return 'map with a repeated label was accepted'
         if o['meta'].get('encdup') and impl.startswith('ok'):
@@ -784,6 +799,12 @@ class C13(Prop):
               for outer in (0, 61, 55799, 24, 2**32, tag + 1):
                   ops.append(mk('dect %s b%s' % (t, (refcbor.head(6, outer) + refcbor.head(6, tag) + body).hex()), k='outer-tag', must_reject=True))
                   ops.append(mk('dect %s b%s' % (t, (refcbor.head(6, outer) + refcbor.head(6, outer) + refcbor.head(6, tag) + body).hex()), k='outer-tag', must_reject=True))
+        # the right tag over any tag over a byte string holding the encoding / over a one-element array / over the bare byte string
+        for t, tag in TAGGED.items():
+            body = bytes.fromhex({'CoseSign': '8443a10126a0f6818340a04101', 'CoseSign1': '8443a10126a0f64101', 'CoseEncrypt': '8440a0f6818340a0f6', 'CoseEncrypt0': '8340a0f6', 'CoseMac': '8540a0f64101818340a0f6', 'CoseMac0': '8440a0f64101'}[t])
+            wb = refcbor.head(2, len(body)) + body
+            for t2 in all_tags(): ops.append(mk('dect %s b%s' % (t, (refcbor.head(6, tag) + refcbor.head(6, t2) + wb).hex()), k='wrapped-body', must_reject=True))
+            for inner in (wb, b'\x81' + body, refcbor.head(6, 24) + refcbor.head(6, 24) + wb, refcbor.head(2, len(wb)) + wb): ops.append(mk('dect %s b%s' % (t, (refcbor.head(6, tag) + inner).hex()), k='wrapped-body', must_reject=True))
         # tag numbers that alias the registered one under a narrowing to 8 / 16 / 32 bits (informed round 11: `t as u32 != TAG as u32`)
         SIMPLE = {'CoseSign': '8443a10126a0f6818340a04101', 'CoseSign1': '8443a10126a0f64101', 'CoseEncrypt': '8440a0f6818340a0f6', 'CoseEncrypt0': '8340a0f6', 'CoseMac': '8540a0f64101818340a0f6', 'CoseMac0': '8440a0f64101'}
         for t, tag in TAGGED.items():
